@@ -819,6 +819,11 @@ func (g *fnGen) literalFunc(fn *fnFunc) {
 		return
 	}
 	fn.recvObj, fn.recvVar = obj, capt
+	if b, _ := baseAndArgs(recvT); b != nil {
+		if id, ok := b.(*ast.Ident); ok {
+			fn.recvType = id.Name
+		}
+	}
 	fn.decl = &ast.FuncDecl{
 		Recv: &ast.FieldList{List: []*ast.Field{{Names: []*ast.Ident{ast.NewIdent(capt)}, Type: &ast.StarExpr{X: recvT}}}},
 		Name: ast.NewIdent(fn.name),
